@@ -39,6 +39,16 @@ def keep_nonneg(xs: list[int]) -> list[int]:
 
 def keep_nonneg_wrong(xs: list[int]) -> list[int]:
     return [x for x in xs if x > 0]
+
+
+def digits(s: str) -> list[int]:
+    return [int(c) for c in s]
+
+
+def digits_wrong(s: str) -> list[int]:
+    return [int(c) + 1 for c in s]
+
+
 '''
 
 
@@ -88,6 +98,19 @@ def main():
             ]
 
         from pyvc.contract import LoopSpec
+        from pyvc.values import TStr, chr_at, int_of_str, is_int_literal, strlen
+
+        def digits_post(c, r):
+            return [
+                LI.len(r.t) == strlen(c.s.t),
+                L.Forall([i], [LI.at(r.t, i)], z3.Implies(rng(r), LI.at(r.t, i) == int_of_str(chr_at(c.s.t, i))), "digits"),
+            ]
+
+        def digits_pre(c):
+            return [L.Forall([i], [chr_at(c.s.t, i)], z3.Implies(z3.And(0 <= i, i < strlen(c.s.t)), is_int_literal(chr_at(c.s.t, i))), "digit.string")]
+
+        # a list comprehension run as a loop with an invariant: the accumulator equals a recursively defined specification
+        Kept = L.prefix_fun("SelfTestKept", [LI.sort], LI.sort, lambda xs: LI.nil, lambda xs, k, prev: z3.If(LI.at(xs, k) >= 0, LI.snoc(prev, LI.at(xs, k)), prev))
 
         cases = [
             ("absall", abs_post, TList(TInt), {}, "proved"),
@@ -99,6 +122,20 @@ def main():
         ]
         for name, post, ret, loops, _exp in cases:
             Contract("inference.zz_toy:" + name, params={"xs": TList(TInt)}, returns=ret, ensures=post, loops=loops, locals={"seen": TSet(TInt)} if name == "grow" else {}, properties=[])
+        for name, exp in (("digits", "proved"), ("digits_wrong", "failed")):
+            Contract("inference.zz_toy:" + name, params={"s": TStr}, returns=TList(TInt), requires=digits_pre, ensures=digits_post, properties=[])
+            cases.append((name, None, None, None, exp))
+        for tag, exp, spec_fn in (("", "proved", lambda xs, n: Kept(xs, n)), ("#wrong", "failed", lambda xs, n: Kept(xs, n - 1))):
+            Contract(
+                "inference.zz_toy:keep_nonneg#loop" + tag,
+                params={"xs": TList(TInt)},
+                returns=TList(TInt),
+                ensures=lambda c, r, f=spec_fn: [r.t == f(c.xs.t, LI.len(c.xs.t))],
+                loops={"lc0": LoopSpec("[... for x in xs]", lambda s, k, pre: [s._st.env["_lc0"].t == Kept(s.xs.t, k)])},
+                locals={"_lc0": TList(TInt)},
+                properties=[],
+            )
+            cases.append(("keep_nonneg#loop" + tag, None, None, None, exp))
         bad = 0
         for name, _post, _ret, _loops, exp in cases:
             res = R.verify_function("inference.zz_toy:" + name)
